@@ -239,7 +239,11 @@ class Message:
         while not unpacker.is_done():
             avps.append(Avp.from_unpacker(unpacker))
 
+        command_flags = header.command_flags
         msg = msg_type(header, avps)
+        # the typed request/answer classes set their default flags when
+        # instantiated; a decoded message keeps the flags it was received with
+        msg.header.command_flags = command_flags
 
         return msg
 
